@@ -18,11 +18,25 @@ type GenOpts struct {
 	// probability that a NodePool carries a second taint (before or after the first) and that a pod carries a second
 	// toleration: pods that tolerate only SOME of a node's taints
 	MultiTaint float64
-	Existing     float64 // probability scale for existing nodes
-	Reserved     bool    // generate reserved offerings and enable the feature gate
-	Limits       float64 // probability that a pool has limits
-	MaxPods      int
-	Weights      bool // distinct pool weights
+	// --- optional vocabulary: 0 = not generated, and no randomness is consumed (other properties' streams do not shift) ---
+	// probability that the pods live in several namespaces and (anti-)affinity terms carry namespaces / a namespaceSelector
+	// (unset, EMPTY = all namespaces, matchLabels, matchExpressions)
+	Namespaces float64
+	// probability that the batch is a rollout: the pods of one app carry a revision label (two revisions, pending and running),
+	// their spread constraints and affinity terms name it in matchLabelKeys, and (every other time) the selector already holds
+	// the merged "rev In [value]" expression, as a Kubernetes >= 1.34 API server stores it
+	MatchLabelKeys float64
+	// probability that pods mount PersistentVolumeClaims: bound PVs with zonal node affinity (one or several OR-ed terms),
+	// unbound claims of StorageClasses with allowedTopologies, several volumes per pod (compatible and mutually exclusive)
+	Volumes float64
+	// probability that a few small pods of the batch constrain ONE custom node label key with required node affinity
+	// (In / NotIn / Exists / DoesNotExist, or a node selector) while nodes and NodePools may or may not define that label
+	LabelInterplay float64
+	Existing       float64 // probability scale for existing nodes
+	Reserved       bool    // generate reserved offerings and enable the feature gate
+	Limits         float64 // probability that a pool has limits
+	MaxPods        int
+	Weights        bool // distinct pool weights
 }
 
 var Zones = []string{"z1", "z2", "z3"}
@@ -463,5 +477,369 @@ func GenScenario(r *rand.Rand, o GenOpts) *Scenario {
 	if s.DaemonSets == nil {
 		s.DaemonSets = []DaemonSet{}
 	}
+	if o.LabelInterplay > 0 && r.Float64() < o.LabelInterplay {
+		DecorateLabelInterplay(r, s)
+	}
+	if o.MatchLabelKeys > 0 && r.Float64() < o.MatchLabelKeys {
+		DecorateRollout(r, s)
+	}
+	if o.Namespaces > 0 && r.Float64() < o.Namespaces {
+		DecorateNamespaces(r, s)
+	}
+	if o.Volumes > 0 && r.Float64() < o.Volumes {
+		DecorateVolumes(r, s)
+	}
 	return s
+}
+
+// ---------- optional vocabulary ----------
+
+// ClonePod returns a deep copy (replicas generated as struct copies share their slices and maps).
+func ClonePod(p Pod) Pod {
+	c := p
+	c.Labels = cloneMap(p.Labels)
+	c.NodeSelector = cloneMap(p.NodeSelector)
+	c.Required = nil
+	for _, t := range p.Required {
+		c.Required = append(c.Required, cloneExprs(t))
+	}
+	c.Preferred = nil
+	for _, pr := range p.Preferred {
+		c.Preferred = append(c.Preferred, Preferred{Weight: pr.Weight, Exprs: cloneExprs(pr.Exprs)})
+	}
+	c.Tolerations = append([]Toleration(nil), p.Tolerations...)
+	c.HostPorts = append([]HostPort(nil), p.HostPorts...)
+	c.Affinity = nil
+	for _, a := range p.Affinity {
+		a.MatchLabels = cloneMap(a.MatchLabels)
+		a.MatchExprs = cloneExprs(a.MatchExprs)
+		a.Namespaces = append([]string(nil), a.Namespaces...)
+		a.MatchLabelKeys = append([]string(nil), a.MatchLabelKeys...)
+		if a.NamespaceSelector != nil {
+			a.NamespaceSelector = &LabelSel{MatchLabels: cloneMap(a.NamespaceSelector.MatchLabels), MatchExprs: cloneExprs(a.NamespaceSelector.MatchExprs)}
+		}
+		c.Affinity = append(c.Affinity, a)
+	}
+	c.Spreads = nil
+	for _, sp := range p.Spreads {
+		sp.MatchLabels = cloneMap(sp.MatchLabels)
+		sp.MatchExprs = cloneExprs(sp.MatchExprs)
+		sp.MatchLabelKeys = append([]string(nil), sp.MatchLabelKeys...)
+		c.Spreads = append(c.Spreads, sp)
+	}
+	c.Volumes = append([]Volume(nil), p.Volumes...)
+	return c
+}
+
+func cloneMap(m map[string]string) map[string]string {
+	if m == nil {
+		return nil
+	}
+	c := make(map[string]string, len(m))
+	for k, v := range m {
+		c[k] = v
+	}
+	return c
+}
+
+func cloneExprs(es []KExpr) []KExpr {
+	if es == nil {
+		return nil
+	}
+	out := make([]KExpr, len(es))
+	for i, e := range es {
+		out[i] = KExpr{Key: e.Key, Op: e.Op, Values: append([]string{}, e.Values...)}
+	}
+	return out
+}
+
+// eachPod visits every pod of the scenario (pending pods, then the pods bound to nodes); node is nil for pending pods.
+func eachPod(s *Scenario, f func(p *Pod, node *Node)) {
+	for i := range s.Pods {
+		f(&s.Pods[i], nil)
+	}
+	for i := range s.Nodes {
+		for j := range s.Nodes[i].Pods {
+			f(&s.Nodes[i].Pods[j], &s.Nodes[i])
+		}
+	}
+}
+
+// unshare gives every pod its own slices and maps.
+func unshare(s *Scenario) {
+	eachPod(s, func(p *Pod, _ *Node) { *p = ClonePod(*p) })
+}
+
+var nsNames = []string{"default", "team-a", "team-b"}
+
+// DecorateNamespaces spreads the pods over three namespaces (labelled env=prod|dev) and gives the (anti-)affinity terms the
+// namespace forms of the API: unset (own namespace), a namespaces list, an EMPTY namespaceSelector (= all namespaces), a
+// selector with matchLabels or matchExpressions, and list + selector together.
+func DecorateNamespaces(r *rand.Rand, s *Scenario) {
+	unshare(s)
+	s.Namespaces = nil
+	for _, n := range nsNames {
+		s.Namespaces = append(s.Namespaces, Namespace{Name: n, Labels: map[string]string{"env": pick(r, []string{"prod", "dev"})}})
+	}
+	// the replicas of one deployment mostly share a namespace
+	repNS := pick(r, nsNames)
+	eachPod(s, func(p *Pod, _ *Node) {
+		if len(p.Name) > 4 && p.Name[:4] == "rep-" && r.Float64() < 0.7 {
+			p.Namespace = repNS
+		} else {
+			p.Namespace = pick(r, nsNames)
+		}
+		if p.Daemon {
+			p.Namespace = "default"
+		}
+		for i := range p.Affinity {
+			a := &p.Affinity[i]
+			switch r.IntN(8) {
+			case 0, 1:
+				// own namespace only
+			case 2, 3:
+				a.NamespaceSelector = &LabelSel{}
+			case 4:
+				a.NamespaceSelector = &LabelSel{MatchLabels: map[string]string{"env": pick(r, []string{"prod", "dev"})}}
+			case 5:
+				a.Namespaces = pickVals(r, nsNames)
+			case 6:
+				a.Namespaces = []string{pick(r, nsNames)}
+				a.NamespaceSelector = &LabelSel{MatchExprs: []KExpr{{Key: "env", Op: pick(r, []string{"In", "NotIn"}), Values: []string{pick(r, []string{"prod", "dev"})}}}}
+			case 7:
+				a.NamespaceSelector = &LabelSel{MatchExprs: []KExpr{{Key: "kubernetes.io/metadata.name", Op: pick(r, []string{"In", "NotIn"}), Values: pickVals(r, nsNames)}}}
+			}
+		}
+	})
+}
+
+const RevKey = "pod-template-hash"
+
+// DecorateRollout turns the pods of the first pending pod's app into a Deployment in the middle of a rollout: every pod of the
+// app (pending and running) carries a revision label, the running ones mostly the old revision; their spread constraints and
+// affinity terms that select the app name the revision label in matchLabelKeys (pods without such a constraint get a zone
+// spread, as a Deployment's pods all carry the same template), and in every other scenario the selector already holds the
+// merged "rev In [value]" expression (Kubernetes >= 1.34 API server).  At least three pods of the app are pending.
+func DecorateRollout(r *rand.Rand, s *Scenario) {
+	if len(s.Pods) == 0 {
+		return
+	}
+	unshare(s)
+	app := s.Pods[0].Labels["app"]
+	revs := []string{"r1", "r2"}
+	apiMerged := r.Float64() < 0.5
+	// the template's constraint: the first pod's own constraints if they select the app, else a zone (or hostname) spread
+	selectsApp := func(m map[string]string) bool { return len(m) == 1 && m["app"] == app }
+	has := false
+	for _, sp := range s.Pods[0].Spreads {
+		has = has || selectsApp(sp.MatchLabels)
+	}
+	for _, a := range s.Pods[0].Affinity {
+		has = has || selectsApp(a.MatchLabels)
+	}
+	var extra *Spread
+	if !has {
+		extra = &Spread{TopologyKey: pick(r, []string{"topology.kubernetes.io/zone", "topology.kubernetes.io/zone", "kubernetes.io/hostname", "karpenter.sh/capacity-type"}),
+			MaxSkew: int32(1 + r.IntN(2)), DoNotSchedule: true, MatchLabels: map[string]string{"app": app}}
+	}
+	pending := 0
+	for i := range s.Pods {
+		if s.Pods[i].Labels["app"] == app {
+			pending++
+		}
+	}
+	for i := 0; pending < 3+r.IntN(3); i++ {
+		c := ClonePod(s.Pods[0])
+		c.Name = fmt.Sprintf("roll-%d", i)
+		s.Pods = append(s.Pods, c)
+		pending++
+	}
+	template := ClonePod(s.Pods[0])
+	eachPod(s, func(p *Pod, node *Node) {
+		if p.Labels["app"] != app || p.Daemon {
+			return
+		}
+		if node != nil {
+			p.Labels[RevKey] = revs[0]
+			if r.Float64() < 0.2 {
+				p.Labels[RevKey] = revs[1]
+			}
+			// a running pod of the deployment carries the template's inter-pod constraints
+			if r.Float64() < 0.7 {
+				t := ClonePod(template)
+				p.Affinity, p.Spreads = t.Affinity, t.Spreads
+			}
+		} else {
+			p.Labels[RevKey] = revs[1]
+			if r.Float64() < 0.35 {
+				p.Labels[RevKey] = revs[0]
+			}
+		}
+		if extra != nil && (node == nil || len(p.Spreads) == 0) {
+			e := *extra
+			e.MatchLabels = cloneMap(extra.MatchLabels)
+			p.Spreads = append(p.Spreads, e)
+		}
+		merged := []KExpr{{Key: RevKey, Op: "In", Values: []string{p.Labels[RevKey]}}}
+		for i := range p.Spreads {
+			if selectsApp(p.Spreads[i].MatchLabels) {
+				p.Spreads[i].MatchLabelKeys = []string{RevKey}
+				if apiMerged {
+					p.Spreads[i].MatchExprs = cloneExprs(merged)
+				}
+			}
+		}
+		for i := range p.Affinity {
+			if selectsApp(p.Affinity[i].MatchLabels) {
+				p.Affinity[i].MatchLabelKeys = []string{RevKey}
+				p.Affinity[i].MatchExprs = cloneExprs(merged) // always merged by the API server for affinity terms
+			}
+		}
+	})
+}
+
+// DecorateVolumes gives pods PersistentVolumeClaims: bound PersistentVolumes with zonal node affinity (one zone, several
+// zones, several OR-ed terms, none), unbound claims of StorageClasses (no topology, one or several allowedTopologies terms),
+// one to three volumes per pod - so that the volumes of one pod agree on a zone, leave several, or exclude each other - and a
+// few claims that make the pod unschedulable (missing claim, missing volume, Immediate class).  The volumes of a running
+// pod are reachable from its node.
+func DecorateVolumes(r *rand.Rand, s *Scenario) {
+	unshare(s)
+	zoneKey := "topology.kubernetes.io/zone"
+	zoneTerm := func(zs ...string) []KExpr {
+		k := zoneKey
+		if r.Float64() < 0.08 {
+			k = "failure-domain.beta.kubernetes.io/zone"
+		}
+		return []KExpr{{Key: k, Op: "In", Values: zs}}
+	}
+	s.StorageClasses = []StorageClass{{Name: "sc-any"}}
+	{
+		sc := StorageClass{Name: "sc-zonal"}
+		perm := r.Perm(len(Zones))
+		nt := 1 + r.IntN(2)
+		for t := 0; t < nt; t++ {
+			sc.Topologies = append(sc.Topologies, []KExpr{{Key: zoneKey, Op: "In", Values: []string{Zones[perm[t]]}}})
+		}
+		if r.Float64() < 0.3 {
+			sc.Topologies = [][]KExpr{{{Key: zoneKey, Op: "In", Values: pickVals(r, Zones)}}}
+		}
+		s.StorageClasses = append(s.StorageClasses, sc)
+	}
+	s.StorageClasses = append(s.StorageClasses, StorageClass{Name: "sc-immediate", Immediate: true})
+	pPod := 0.3 + 0.5*r.Float64()
+	n := 0
+	eachPod(s, func(p *Pod, node *Node) {
+		if p.Daemon {
+			return
+		}
+		if node != nil && r.Float64() > 0.25 {
+			return
+		}
+		if node == nil && r.Float64() > pPod {
+			return
+		}
+		k := 1 + r.IntN(3)
+		if r.Float64() < 0.4 {
+			k = 2
+		}
+		for i := 0; i < k; i++ {
+			n++
+			claim := PVC{Name: fmt.Sprintf("claim-%d", n), Namespace: p.Namespace}
+			vol := Volume{Name: fmt.Sprintf("vol-%d", i), Claim: claim.Name}
+			x := r.Float64()
+			switch {
+			case node != nil:
+				// in use by a running pod: bound, reachable from its node
+				pv := PV{Name: fmt.Sprintf("pv-%d", n), Terms: [][]KExpr{zoneTerm(node.Zone)}}
+				claim.VolumeName = pv.Name
+				s.PVs = append(s.PVs, pv)
+			case x < 0.55:
+				pv := PV{Name: fmt.Sprintf("pv-%d", n)}
+				switch y := r.Float64(); {
+				case y < 0.6:
+					pv.Terms = [][]KExpr{zoneTerm(pick(r, Zones))}
+				case y < 0.75:
+					pv.Terms = [][]KExpr{zoneTerm(pickVals(r, Zones)...)}
+				case y < 0.92:
+					perm := r.Perm(len(Zones))
+					pv.Terms = [][]KExpr{zoneTerm(Zones[perm[0]]), zoneTerm(Zones[perm[1]])}
+				}
+				claim.VolumeName = pv.Name
+				s.PVs = append(s.PVs, pv)
+			case x < 0.80:
+				claim.StorageClass = "sc-zonal"
+			case x < 0.95:
+				claim.StorageClass = "sc-any"
+			case x < 0.97:
+				claim.StorageClass = "sc-immediate"
+			case x < 0.985:
+				claim.VolumeName = "pv-missing"
+			default:
+				// the claim itself does not exist
+				p.Volumes = append(p.Volumes, vol)
+				continue
+			}
+			s.PVCs = append(s.PVCs, claim)
+			p.Volumes = append(p.Volumes, vol)
+		}
+	})
+}
+
+var customKeys = []string{"team", "tier"}
+
+func customVals(k string) []string {
+	if k == "team" {
+		return []string{"red", "blue"}
+	}
+	return []string{"gold", "silver"}
+}
+
+// GenCustomKey picks one of the custom node label keys; GenCustomValue one of its values.
+func GenCustomKey(r *rand.Rand) string             { return pick(r, customKeys) }
+func GenCustomValue(r *rand.Rand, k string) string { return pick(r, customVals(k)) }
+
+// GenCustomExpr draws one expression over the custom node label key k with any of the four set operators.
+func GenCustomExpr(r *rand.Rand, k string) KExpr {
+	op := pick(r, []string{"In", "NotIn", "Exists", "DoesNotExist"})
+	e := KExpr{Key: k, Op: op, Values: []string{}}
+	if op == "In" || op == "NotIn" {
+		e.Values = []string{pick(r, customVals(k))}
+	}
+	return e
+}
+
+// ApplyLabelInterplay makes p a small pod whose required node affinity (or node selector) is about the custom label key k.
+func ApplyLabelInterplay(r *rand.Rand, p *Pod, k string) {
+	p.CPU = int64(100 * (1 + r.IntN(6)))
+	p.Mem = int64(64 * (1 + r.IntN(6)))
+	p.HostPorts = nil
+	p.NodeSelector, p.Required = nil, nil
+	if r.Float64() < 0.3 {
+		p.Preferred = nil
+	}
+	if r.Float64() < 0.15 {
+		p.NodeSelector = map[string]string{k: pick(r, customVals(k))}
+		return
+	}
+	term := []KExpr{GenCustomExpr(r, k)}
+	p.Required = [][]KExpr{term}
+	if r.Float64() < 0.15 {
+		p.Required = append(p.Required, []KExpr{GenCustomExpr(r, k)})
+	}
+}
+
+// DecorateLabelInterplay makes two to four pending pods (added when the batch is smaller) small pods that constrain one
+// custom node label key in different ways.
+func DecorateLabelInterplay(r *rand.Rand, s *Scenario) {
+	unshare(s)
+	k := pick(r, customKeys)
+	n := 2 + r.IntN(3)
+	for i := 0; len(s.Pods) < n; i++ {
+		s.Pods = append(s.Pods, Pod{Name: fmt.Sprintf("lab-%d", i), Labels: map[string]string{"app": pick(r, apps)}, Tolerations: genTolerations(r)})
+	}
+	perm := r.Perm(len(s.Pods))
+	for _, i := range perm[:n] {
+		ApplyLabelInterplay(r, &s.Pods[i], k)
+	}
 }
